@@ -397,17 +397,7 @@ func (g *bundleGen) cmd(s *gScope, depth int) string {
 		}
 		kw := []string{"foreach", "for"}[r.Intn(2)]
 		out := "{" + kw + " $" + name + " in " + list + "}" + body
-		shadows := false
-		if g.opts.jsSafe {
-			// soyjs translates {ifempty} inside the loop's scope frame: an outer variable with the loop
-			// variable's name is hidden there (C04 finding c04:ifempty-sees-loop-var, kept as a hand case)
-			for _, v := range s.vars {
-				if v.name == name {
-					shadows = true
-				}
-			}
-		}
-		if r.Intn(3) == 0 && !shadows {
+		if r.Intn(3) == 0 {
 			out += "{ifempty}" + g.block(s, depth-1)
 		}
 		return out + "{/" + kw + "}"
